@@ -15,6 +15,7 @@ import (
 //	corpus  : a corpus snippet as is
 //	big     : concatenation of error-free corpus bodies crossing the 1024-entry pool blocks
 //	program : a G1/G2 generated program (valid by construction) in a PRNG trivia layout
+//	lines   : segments with 0..40 line terminators inside one token or between two (column-0 starts, all token kinds)
 //	scaled  : one construct repeated or nested n times (71 shapes, n up to 70 000 / 400 KB): size and count thresholds
 
 type parseCase struct {
@@ -65,6 +66,16 @@ func pickVersion(r *core.Rand) string {
 }
 
 func genParseCase(seed int64, label string, idx int, hostileShare int) parseCase {
+	pc := genParseCase0(seed, label, idx, hostileShare)
+	if core.NewRand(seed, label+"bom", idx).Chance(1, 80) {
+		// a UTF-8 byte order mark in front of the file is inline HTML like any other text
+		pc.Src = append([]byte("\xef\xbb\xbf"), pc.Src...)
+		pc.Class += "+bom"
+	}
+	return pc
+}
+
+func genParseCase0(seed int64, label string, idx int, hostileShare int) parseCase {
 	r := core.NewRand(seed, label, idx)
 	ver := pickVersion(r)
 	fam := obs.Fam(ver)
@@ -90,6 +101,9 @@ func genParseCase(seed int64, label string, idx int, hostileShare int) parseCase
 		}
 		src, _, _ := gen.Scaled(r.Split("scaled"), fam, maxN, maxDeep, maxBytes)
 		return parseCase{src, ver, "scaled"}
+	}
+	if r.Chance(1, 30) {
+		return parseCase{gen.LineSweep(r.Split("lines")), ver, "lines"}
 	}
 	switch {
 	case k < hostileShare:
